@@ -269,11 +269,12 @@ Fixpoint prefixb (p l : list N) : bool :=
 Fixpoint infixb (p l : list N) : bool :=
   prefixb p l || match l with [] => false | _ :: r => infixb p r end.
 
-(* byte sizes the log entries stand for are bounded by these two quantities *)
-Definition alloc_le (file_len stream_len : N) (a : alloc) : Prop :=
-  match a with
-  | AFile n => n <= file_len
-  | AZstd n => n = stream_len
-  | AName n => n < stream_len
-  | ATable n => n < stream_len
-  end.
+(* the params fields as load_params reads them, with the literal offsets (pinned against the translator's
+   R_PARAMS_* by props/C14O.v open2_code_shape): (segment_size, kmer_length, min_match_len) *)
+Definition le32_at (data : list N) (off : N) : N := le_value (firstnN 4 (skipnN off data)).
+Definition params_fields (data : list N) : N * N * N :=
+  ((if 16 <=? lenN data then le32_at data 12 else 60000), le32_at data 0, le32_at data 4).
+
+(* log entries of the sample table are bounded by the length of the decoded stream *)
+Definition stream_alloc_ok (bound : N) (a : alloc) : Prop :=
+  match a with AName m => m < bound | ATable k => k < bound | _ => False end.
